@@ -637,6 +637,9 @@ func genCase(t *rapid.T) *Case {
 	for i := 0; i < n; i++ {
 		tok := fmt.Sprintf("tok%dZ%dq", i, gen.IntR(t, 100000, 999999, "tok"))
 		if gen.Chance(t, 2, 3, "sensitive") {
+			if gen.Chance(t, 1, 3, "short") {
+				tok = fmt.Sprintf("Qz%dXk", i) // a credential shorter than what replaces it in the record
+			}
 			c.Headers = append(c.Headers, Header{Name: spell(t, gen.Pick(t, sensitive, "name")), Value: tok, Secret: true})
 		} else {
 			c.Headers = append(c.Headers, Header{Name: spell(t, gen.Pick(t, []string{"Accept", "X-Request-Id", "User-Agent", "X-Token-Count", "Cookies"}, "oname")), Value: tok})
